@@ -780,3 +780,28 @@ Definition call_dataclass (re : string -> string -> bool) (D : decls) (fuel : na
 Definition type_transform (re : string -> string -> bool) (D : decls) (fuel : nat) (o : options) (t : ty) (v : pyval)
   : out pyval :=
   let* _ := depth_check o 1 in in_fresh (transform re D fuel o 1 t v).
+
+(* LogicalType.__instancecheck__ (rule.py 97-114) for a constrained type with a class origin:
+   isinstance(obj, origin) and cls(obj) does not raise ParseError (other exceptions escape) *)
+Definition origin_isinstance (t : ty) (v : pyval) : option bool :=
+  match t with
+  | TPrim p => Some (prim_isinstance p v)
+  | TData c => Some (match v with PInst c' _ => Nat.eqb c c' | _ => false end)
+  | _ => None
+  end.
+Definition instancecheck (re : string -> string -> bool) (D : decls) (fuel : nat) (o : options) (t : ty) (v : pyval)
+  : out bool :=
+  match t with
+  | TRule (Some ot) _ _ _ _ _ _ =>
+      match origin_isinstance ot v with
+      | Some false => Ok false
+      | Some true =>
+          match call_type re D fuel o t v with
+          | Ok _ => Ok true
+          | Raise e => if is_parse_err e then Ok false else Raise e
+          | Diverge => Diverge | OutOfFuel => OutOfFuel | Unmodelled => Unmodelled
+          end
+      | None => Unmodelled
+      end
+  | _ => Unmodelled
+  end.
